@@ -256,13 +256,16 @@ def load_currency_data():
     return data
 
 def parse_currency_data(s):
-    cs = map(lambda line: line.split(","), s.split("\n"))
+    # The export writer ends every row with a newline, so skip blank lines.
+    cs = map(lambda line: line.split(","),
+             filter(lambda line: line.strip() != "", s.split("\n")))
     result = []
     for c in cs:
         if len(c) < 3:
             return None
         result.append(CurrencyData(c[0], c[1], float(c[2])))
-    return result
+    # An empty table is as good as none, fall back to the default.
+    return result if result else None
     
 if __name__ == "__main__":
     parser = argparse.ArgumentParser()
